@@ -355,7 +355,7 @@ class StmtMixin(object):
             if h.name:
                 msgs = [c.value for c in caught]
                 ev = fresh('exc', Val)
-                hs.vars[h.name] = V(ev, None)
+                hs.vars[h.name] = V(ev, parse_spec('opaque'))
                 hs.vars['$exc_msg_' + h.name] = msgs[0] if len(caught) == 1 and msgs[0] is not None else V(fresh('excmsg'), parse_spec('str'))
             old_exc = getattr(fr, 'current_exc', None)
             fr.current_exc = caught[0].exc if len({c.exc for c in caught}) == 1 else Exception
@@ -384,15 +384,24 @@ class StmtMixin(object):
         if len(s.items) != 1:
             raise EngineError('multi-item with')
         item = s.items[0]
-        cm = self.eval(st, item.context_expr) if not isinstance(item.context_expr, pyast.Call) else None
-        if cm is None:
+        if isinstance(item.context_expr, pyast.Call):
             call = item.context_expr
             fv = self.eval(st, call.func)
-            args = [self.eval(st, a) for a in call.args]
-            kwargs = {k.arg: self.eval(st, k.value) for k in call.keywords}
-            self.with_call(st, fv, args, kwargs, s, item)
-            return
-        raise EngineError('with on non-call')
+            from .model import Bound as _B
+            import types as _t, inspect as _i
+            if isinstance(fv, _B) and isinstance(fv.func, _t.FunctionType) and _i.isgeneratorfunction(_i.unwrap(fv.func)):
+                args = [self.eval(st, a) for a in call.args]
+                kwargs = {k.arg: self.eval(st, k.value) for k in call.keywords}
+                self.with_call(st, fv, args, kwargs, s, item)
+                return
+        # file-like context managers: __enter__ returns the object, __exit__ closes it (no modelled effect)
+        cm = self.eval(st, item.context_expr)
+        if not isinstance(cm, V):
+            raise EngineError('with on %r' % (cm,))
+        self.trust('with <file object>: __enter__ returns the object, __exit__ only closes it')
+        if item.optional_vars is not None:
+            self.assign(st, item.optional_vars, cm)
+        self.exec_block(st, s.body)
 
     def s_While(self, st, s):
         self.loop_while(st, s)
